@@ -397,7 +397,7 @@ class FrameRateAttribute:
 
       m = FrameRateAttribute._FRAME_RATE_MULT_RE.fullmatch(frm_raw)
 
-      if m is not None:
+      if m is not None and int(m.group(1)) > 0 and int(m.group(2)) > 0:
 
         frm = Fraction(int(m.group(1)), int(m.group(2)))
 
